@@ -12,13 +12,14 @@ RULE = ("seeded runs of the real uploader/downloader on a simulated grid: k<=N<=
         "sizes concentrated on 0/55/56, segment and k boundaries; delivery order of every server answer drawn per message (uniform/heavy-tailed/FIFO latency), "
         "write-batch size, read chunk size, share-layout version, overdue timer and finder parallelism randomised per run; reads through a fresh client; "
         "non-trivial = an upload completed and a read/oracle ran; distinct = (probe counts, k, n, size) fingerprint")
+RULE += '; in 35% of runs a second, different file (same real segment size, other length and/or other k) is stored and read by the same process afterwards'
 TECHNIQUE = "deterministic simulation: seeded schedules over a simulated network/reactor, byte-exact and independent-decoder oracles"
 LEVEL_TEXT = "seeded search over inputs, configurations and delivery schedules; sampling, not enumeration"
 LEVEL_NOTE = ("real: allmydata.client._Client, Uploader/Encoder/Tahoe2ServerSelector, downloader, StorageFarmBroker/NativeStorageServer, StorageServer; "
               "stub: reactor, foolscap wire (SimRef, per-connection FIFO), os.urandom (seeded), CPU thread pool (simulated: synchronous, or completion as a reactor event after a drawn delay), RSA keygen (pool); "
               "trusted: oracles/sharecheck.py + oracles/refhash.py (hashlib, zfec, AES only)")
 REAL = ["allmydata.client._Client", "immutable.upload/encode/layout", "immutable.downloader.*", "immutable.filenode/literal", "storage_client", "storage.server"]
-STUB = ["reactor/time", "foolscap transport (SimNet/SimRef)", "os.urandom", "cputhreadpool (SimThreadPool: in a third of the runs the result is delivered by a reactor event after a drawn delay, otherwise synchronously)"]
+STUB = ["reactor/time", "foolscap transport (SimNet/SimRef; per-connection FIFO; in half of the runs arrivals are batched: several messages handed over before queued zero-delay turns run)", "os.urandom", "cputhreadpool (SimThreadPool: in a third of the runs the result is delivered by a reactor event after a drawn delay, otherwise synchronously)"]
 ASSUMPTIONS = ["per-connection FIFO delivery (TCP)", "PYTHONHASHSEED=0 is part of the replay key"]
 
 
